@@ -121,6 +121,20 @@ func GenTlvNumberDecode(code string) (string, error) {
 	return b.String(), err
 }
 
+// GenTlvLengthCheck generates the check that a TLV length just read from the
+// input does not exceed the bytes that are left in the reader. Everything a
+// field reader does afterwards (allocation, copying, delegation, skipping)
+// uses this length, so it must not be trusted before it is checked.
+func GenTlvLengthCheck(code string) (string, error) {
+	const Temp = `if uint64({{.}}) > uint64(reader.Length()-reader.Pos()) {
+		return nil, enc.ErrFailToParse{TypeNum: typ, Err: io.ErrUnexpectedEOF}
+	}`
+	t := template.Must(template.New("TlvLengthCheck").Parse(Temp))
+	b := strings.Builder{}
+	err := t.Execute(&b, code)
+	return b.String(), err
+}
+
 func GenNaturalNumberDecode(code string) (string, error) {
 	const Temp = `{{.}} = uint64(0)
 	{
